@@ -182,10 +182,15 @@ func (m *Merger) nextBySortOrder() (rec *sam.Record, err error) {
 }
 
 func (m *Merger) reassignReference(id int, rec *sam.Record) {
-	if rec.Ref == nil || m.refLinks == nil {
+	if m.refLinks == nil {
 		return
 	}
-	rec.Ref = m.refLinks[id][rec.RefID()]
+	if rec.Ref != nil {
+		rec.Ref = m.refLinks[id][rec.RefID()]
+	}
+	if rec.MateRef != nil {
+		rec.MateRef = m.refLinks[id][rec.MateRef.ID()]
+	}
 }
 
 func (m *Merger) push(r *reader) { heap.Push((*bySortOrderAndID)(m), r) }
